@@ -31,11 +31,11 @@ EXHAUSTIVE = {}
 
 def BOUNDS(tier):
     return ('two-sided shapes: corner set + %s; all assignments of students to list positions / unassigned; quotas symbolic >= 0'
-            % ('30 seeded random (those with ns<=3)' if tier == 'quick' else '150 seeded random ns<=4 + exhaustive ns<=2,np<=2,nl<=2'))
+            % ('30 seeded random (those with ns<=3)' if tier == 'quick' else '400 seeded random ns<=4 + exhaustive ns<=2,np<=2,nl<=2'))
 
 
 def tasks(tier, seed):
-    shs = shapes.shape_set(tier, seed, twosided=True, quick_n=30, thorough_n=150)
+    shs = shapes.shape_set(tier, seed, twosided=True, quick_n=30, thorough_n=400)
     if tier == 'quick':
         shs = [s for s in shs if s.ns <= 3]
     else:
